@@ -10,6 +10,7 @@ CONSTANTS
   MaxIter = 1
   GS = 2
   G = 1
+  Rounds = 1
   TOL = 0
   EMIT = TRUE
 CHECK_DEADLOCK FALSE
